@@ -22,7 +22,7 @@ RULE = ("one case = one generated valid world (validity model) x one option tupl
 
 
 PROBES = ["stale_report_replaced", "mkdir_p_output", "single_entry_schedule", "asset_income_only", "asset_fully_sold", "has_lost", "in_crypto_fee", "empty_window",
-          "midyear_from", "large_table", "huge_world", "six_assets", "whale_amounts", "dust_balance_left", "skewed_large_world", "expense_fractions_over_120", "neg_balances_allowed", "equal_instants_in_world", "tie_transfer_funds_disposal", "tie_buy_and_sell"]
+          "midyear_from", "large_table", "huge_world", "six_assets", "whale_amounts", "generators_configured", "dust_balance_left", "skewed_large_world", "expense_fractions_over_120", "neg_balances_allowed", "equal_instants_in_world", "tie_transfer_funds_disposal", "tie_buy_and_sell"]
 
 
 def make_case(seed, facts, index=0, weights=None):
@@ -158,7 +158,7 @@ def check_run(case, res, facts):
         elif e["ev"] == "open" and e["w"] and e["cls"] == "output":
             placed.add(e["real"])
     prefix = opts.get("prefix") or ""
-    for g in facts[opts["country"]]["generators"]:
+    for g in (case["world"].get("generators") or facts[opts["country"]]["generators"]):  # the configured reports, else the entry point's defaults
         short = core.generator_short(g)
         cands = [n for n in res["reports"] if n.startswith(prefix) and short in n]
         good = None
@@ -281,6 +281,8 @@ def _probes(case, res):
         p["probe:six_assets"] = 1
     if any(W.D(r.get("crypto_in") or 0) >= 10**9 for _, t, r in W.all_rows(world) if t == "IN"):
         p["probe:whale_amounts"] = 1
+    if world.get("generators"):
+        p["probe:generators_configured"] = 1
     if case["swarm"].get("dust"):
         p["probe:dust_balance_left"] = 1
     if case["swarm"].get("skew"):
@@ -319,6 +321,10 @@ def reduce_candidates(case):
                     ("path_style", "rel"), ("files_in", "")):
         if o.get(k) != dflt:
             yield dict(c, opts=dict(o, **{k: dflt}))
+    if c["world"].get("generators"):
+        w2 = W.clone(c["world"])
+        w2["generators"] = None
+        yield dict(c, world=w2)
     if c["world"].get("methods"):
         w2 = W.clone(c["world"])
         w2["methods"] = None
